@@ -136,6 +136,28 @@ def _cv(c):
     return UNKNOWN
 
 
+class _FnValueCall:
+    """stand-in for a CallSite when a function VALUE is invoked (through Fn::call or an iterator adaptor)"""
+
+    def __init__(self, cs, key):
+        self.body, self.bb, self.term = cs.body, cs.bb, cs.term
+        self.fn = self.res = self.name = key
+        self.args, self.dest, self.target, self.line, self.exp = [], None, cs.target, cs.line, cs.exp
+        self.gbodies, self.gargs = [], []
+
+    def is_(self, *names):
+        for n in names:
+            if n == self.name or (n.startswith("*") and self.name.endswith(n[1:])):
+                return True
+        return False
+
+    def is_or_polls(self, *names):
+        return self.is_(*names)
+
+    def where(self):
+        return "%s:%s (%s bb%d)" % (self.body.file_of(self.bb), self.line, self.body.key, self.bb)
+
+
 class Interp:
     def __init__(self, body, call_model=None, max_steps=4000):
         self.body = body
@@ -238,6 +260,13 @@ class Interp:
                 return Val("adt", list(payload) or [UNIT], ("core::ops::control_flow::ControlFlow", "Continue"))
             if nm in ("Err", "None"):
                 return Val("adt", [Val("adt", list(payload), d[0].extra)] if d[0].k == "adt" else [d[0]], ("core::ops::control_flow::ControlFlow", "Break"))
+        if fn in ("core::ops::function::FnOnce::call_once", "core::ops::function::Fn::call", "core::ops::function::FnMut::call_mut") and args:
+            # calling a closure / fn value: the argument tuple is spread over the callee's parameters
+            f0 = args[0].deref()
+            if (f0.k == "adt" and f0.extra and f0.extra[0] == "closure") or f0.k == "fn":
+                tup = args[1].deref() if len(args) > 1 else Val("tuple", [])
+                cargs = list(tup.v) if tup.k == "tuple" else ([] if tup.k == "unit" else [tup])
+                return self.call_closure(cs, args[0], cargs)
         r = self.option_combinators(cs, args, d)
         if r is not None:
             return r
@@ -457,6 +486,17 @@ class Interp:
             key = cs.gbodies[0]
         prog = getattr(self.body, "prog", None)
         cb = prog.body(key) if (prog is not None and key) else None
+        if cb is None and key and f is not None and f.k == "fn":
+            # a function item of another crate passed as a value (`map(Uid::from_raw)`): ask the rule's call model as if it were
+            # called directly
+            fake = _FnValueCall(cs, key)
+            if self.call_model is not None:
+                r = self.call_model(fake, list(cargs))
+                if r is not None:
+                    if self._res is not None:
+                        self._res.calls.append((fake, list(cargs), r))
+                    return r
+            return Val("unknown", "ret:%s" % key)
         if cb is None or self.depth > 6:
             return UNKNOWN
         sub = Interp(cb, self.call_model, self.max_steps)
@@ -517,6 +557,8 @@ class Interp:
             return Val("adt", [payload], ("core::result::Result", "Ok")) if pos else Val("adt", [args[1]], ("core::result::Result", "Err"))
         if m == "ok_or_else" and is_opt:
             return Val("adt", [payload], ("core::result::Result", "Ok")) if pos else Val("adt", [self.call_closure(cs, args[1], [])], ("core::result::Result", "Err"))
+        if m == "err" and not is_opt:
+            return Val("adt", [payload], ("core::option::Option", "Some")) if neg else NONE_V
         if m == "ok" and not is_opt:
             return Val("adt", [payload], ("core::option::Option", "Some")) if pos else NONE_V
         if m in ("is_some", "is_ok"):
